@@ -19,6 +19,7 @@ import (
 	"sort"
 	"strings"
 	"sync"
+	"sync/atomic"
 	"testing"
 	"time"
 
@@ -78,6 +79,21 @@ func c11Build(kind string, k int) c11Sent {
 		hdr("Cookie", fmt.Sprintf("c%d=v%d", k, k))
 		s.cookies = []string{fmt.Sprintf("c%d=v%d", k, k)}
 		finish("GET "+s.uri+" HTTP/1.1", nil, false)
+	case "getnv":
+		// the last query argument has no '=' (value-less): it must not show a value left in the
+		// argument slot by an earlier request
+		s.method = "GET"
+		s.uri = fmt.Sprintf("/nv%d?a=%d&flag", k, k)
+		s.query = []string{fmt.Sprintf("a=%d", k), "flag="}
+		finish("GET "+s.uri+" HTTP/1.1", nil, false)
+	case "formnv":
+		s.method = "POST"
+		s.uri = fmt.Sprintf("/fnv%d", k)
+		s.body = fmt.Sprintf("x=%d&debug", k)
+		s.post = []string{fmt.Sprintf("x=%d", k), "debug="}
+		hdr("Content-Type", "application/x-www-form-urlencoded")
+		hdr("Content-Length", fmt.Sprint(len(s.body)))
+		finish("POST "+s.uri+" HTTP/1.1", []byte(s.body), false)
 	case "form":
 		s.method = "POST"
 		s.uri = fmt.Sprintf("/f%d", k)
@@ -120,6 +136,14 @@ func c11Build(kind string, k int) c11Sent {
 		hdr("Transfer-Encoding", "chunked")
 		finish("POST "+s.uri+" HTTP/1.1", nil, false)
 		s.raw = append(s.raw, []byte("a\r\nhello")...) // 10 bytes announced, 5 sent
+	case "rejectnb":
+		// an expectation on a request that declares no body: rejecting it is still a
+		// per-request decision and (as for any rejection) ends the connection
+		s.method = "POST"
+		s.uri = fmt.Sprintf("/reject%d", k)
+		hdr("Expect", "100-continue")
+		hdr("Content-Length", "0")
+		finish("POST "+s.uri+" HTTP/1.1", nil, false)
 	case "reject":
 		s.method = "POST"
 		s.uri = fmt.Sprintf("/reject%d", k)
@@ -246,6 +270,8 @@ func c11Eq(a, b []string) bool {
 	}
 	return true
 }
+
+var c11StillOpen atomic.Int32
 
 type c11Result struct {
 	dispatched []int
@@ -381,7 +407,7 @@ func c11RunHistory(b *c11Beh, rmu, stream, pipelined bool, baseline string) c11R
 				res.problems = append(res.problems, fmt.Sprintf("no response to request %d (%s): %v", k, kind, err))
 				break
 			}
-			wantStatus := map[string]int{"bad": 400, "reject": 417, "timeout": StatusRequestTimeout}[kind]
+			wantStatus := map[string]int{"bad": 400, "reject": 417, "rejectnb": 417, "timeout": StatusRequestTimeout}[kind]
 			if wantStatus == 0 {
 				wantStatus = 299
 			}
@@ -398,6 +424,23 @@ func c11RunHistory(b *c11Beh, rmu, stream, pipelined bool, baseline string) c11R
 				mu.Lock()
 				res.diffs = append(res.diffs, fmt.Sprintf("response to request %d (%s): got %s, want %s", k, kind, got, want))
 				mu.Unlock()
+			}
+			if kind == "bad" || kind == "reject" || kind == "rejectnb" || kind == "hclose" {
+				// the specification ends the connection here: a decision taken for this request
+				// (error, rejected expectation, handler close) must not linger on an open connection
+				wait := 5 * time.Second
+				if c11StillOpen.Load() >= 3 {
+					wait = 300 * time.Millisecond // already established several times: do not spend minutes on it
+				}
+				c.SetReadDeadline(time.Now().Add(wait)) //nolint:errcheck
+				if _, err := br.Peek(1); err != nil {
+					if te, ok := err.(interface{ Timeout() bool }); ok && te.Timeout() {
+						c11StillOpen.Add(1)
+						mu.Lock()
+						res.diffs = append(res.diffs, fmt.Sprintf("connection still open %v after the response to request %d (%s)", wait, k, kind))
+						mu.Unlock()
+					}
+				}
 			}
 		}
 		c.Close()
